@@ -14,7 +14,7 @@ use serde_json::{json, Value};
 pub const META: Meta = Meta {
     id: "C07",
     level: "fault_enumeration",
-    rule: "Fault enumeration: range lengths 1..=8 (thorough 10) x every composition of the range into <= 4 (thorough 5) chunks x fault kind {early end, error, 1-3 extra bytes in chunk i, one extra chunk, an error after the last byte, none} x every chunk index x filler {none, Pending before the fault, empty chunk before the fault, Pending / empty 'tail' steps between the last byte and the end or after-the-end fault} x entity stream variants {contiguous chunks, two-segment chunks, size_hint that counts data chunks, errors that repeat on every further poll} x response shape {200, single 206, multipart with 2-3 parts and the fault in each part, ranges apart and touching} x {small entity, entity of 2^64-1 bytes with the faulty range running to its very end in first- and suffix form}; plus proptest over longer ranges, up to 8 parts and faults in several parts. Oracle: against the fault-free twin of the same case: delivered bytes are a prefix of the twin's body and never exceed the announced length; short/failing stream => first terminal event is an error (the injected one for entity errors), never a clean end; over-long stream => nothing beyond the announced length and an error when polled past it; fault-free with fillers => clean end with exact bytes. Non-trivial = the injected fault was actually reached by the drain; distinct by fingerprint of the case.",
+    rule: "Fault enumeration: range lengths 1..=8 (thorough 10) x every composition of the range into <= 4 (thorough 5) chunks x fault kind {early end, error, 1-3 extra bytes in chunk i, one extra chunk, an error after the last byte, none} x every chunk index x filler {none, Pending before the fault, empty chunk before the fault, Pending / empty 'tail' steps between the last byte and the end or after-the-end fault} x entity stream variants {contiguous chunks, two-segment chunks, size_hint that counts data chunks, errors that repeat on every further poll} x response shape {200, single 206, multipart with 2-3 parts and the fault in each part, ranges apart and touching} x {small entity, entity of 2^64-1 bytes with the faulty range running to its very end in first- and suffix form}; ranges delivered in n one-byte chunks for every n up to 136 (thorough 300) with a fault right after the last byte; plus proptest over longer ranges, up to 8 parts and faults in several parts. Oracle: against the fault-free twin of the same case: delivered bytes are a prefix of the twin's body and never exceed the announced length; short/failing stream => first terminal event is an error (the injected one for entity errors), never a clean end; over-long stream => nothing beyond the announced length and an error when polled past it; fault-free with fillers => clean end with exact bytes. Non-trivial = the injected fault was actually reached by the drain; distinct by fingerprint of the case.",
     assumptions: &[
         "harness entity streams are fused after their end or error",
         "the consumer polls until a terminal event (a consumer that stops at Content-Length never sees an extra chunk)",
@@ -502,8 +502,39 @@ pub fn run(cx: &Cx) -> Acc {
         });
     }));
     let n = cx.tier.pick(1u64, 20u64);
+    let bound = cx.tier.pick(136u32, 300u32);
+    acc.merge(par_units(cx, "many-chunks", &[bound], true, "a range delivered in n one-byte chunks for every n up to the bound, fault right after the last byte or at the last chunk, every response shape", |cx, &b, acc| {
+        many_chunks_cases(b, |c| {
+            acc.run_case(cx, "many-chunks", &c, |acc| check(&c, acc));
+        });
+    }));
     acc.merge(par_proptest(cx, "random", 100_000 * n, random_strategy, |c, acc| check(c, acc)));
     acc
+}
+
+/// The *number* of chunks a range is delivered in: 1-byte chunks, every count up to the bound, with
+/// a fault right after the last byte (and one mid-stream), for every response shape.
+pub fn many_chunks_cases(max: u32, mut f: impl FnMut(FCase)) {
+    for n in 1..=max {
+        for (shape, call) in [(Shape::Full, 0u32), (Shape::Single, 0), (Shape::Multi(2), 0), (Shape::Multi(2), 1)] {
+            for kind in [FaultKind::ExtraChunk, FaultKind::ErrorAfterEnd, FaultKind::EndEarly] {
+                f(FCase {
+                    shape,
+                    chunks: vec![1; n as usize],
+                    filler: None,
+                    faults: vec![Fault { call, chunk: if kind == FaultKind::EndEarly { n - 1 } else { 0 }, kind, extra: 0 }],
+                    extra_polls: 1,
+                    tail: vec![],
+                    segments: 1,
+                    counting_hint: false,
+                    unfused_errors: false,
+                    huge: 0,
+                    noop: 0,
+                    adjacent: false,
+                });
+            }
+        }
+    }
 }
 
 pub fn replay(_cx: &Cx, _phase: &str, case: &Value, acc: &mut Acc) -> Check {
